@@ -340,11 +340,12 @@ pub fn run(cfg: &Cfg) -> i32 {
 
     // ---------------- (2) sealing
     let seal_alpha: Vec<&str> = if quick {
-        vec!["depth", "drop", "dup", "swap", "over", "rot", "1", "g", "5 ! g", "2 var x", "+"]
+        vec!["depth", "drop", "dup", "swap", "over", "rot", "1", "g", "5 ! g", "2 var x", "+", "258 u16!", "d2-width"]
     } else {
-        vec!["depth", "drop", "dup", "swap", "over", "rot", "1", "2", "g", "5 ! g", "2 var x", "+", "[ ]", "\"s\"", "1 let y"]
+        vec!["depth", "drop", "dup", "swap", "over", "rot", "1", "2", "g", "5 ! g", "2 var x", "+", "[ ]", "\"s\"", "1 let y", "258 u16!", "remain", "d2-width", "7 9 d2-resize"]
     };
-    let touches_vars = |b: &str| b.split(' ').any(|w| w == "g" || w == "!" || w == "var" || w == "let");
+    // words of the parsing module and of the canvas plugin read (and write) variables / a host object
+    let touches_vars = |b: &str| b.split(' ').any(|w| w == "g" || w == "!" || w == "var" || w == "let" || w == "u16!" || w == "remain" || w.starts_with("d2-"));
     let seal_len = if quick { 3 } else { 4 };
     let mut bodies: Vec<Vec<&str>> = vec![vec![]];
     let mut all_bodies: Vec<Vec<&str>> = vec![vec![]];
@@ -374,6 +375,7 @@ pub fn run(cfg: &Cfg) -> i32 {
     par_run(cfg.threads, all_bodies.len(), 16, |_t, pull| {
         let base0 = {
             let mut xs = boot();
+            let _ = xeh::d2_plugin::load(&mut xs);
             let _ = xs.set_insn_limit(Some(5000));
             xs
         };
